@@ -89,13 +89,15 @@ NextId == Cardinality(S.ids) + 1
 NoStatic == Statics(S) = {} /\ ~S.ghosts /\ \A b \in S.ids : S.bars[b].alive \/ ~S.bars[b].inmp     \* no member has been dropped or unlinked so far
 
 TargetName == IF Tgt = "auto" THEN (IF Hz = 0 THEN "spy" ELSE "spy_hz") ELSE Tgt
-NewOp0(name, b, tpl, fin, tw, tf) ==
-    [op |-> name, b |-> b, len |-> 3, tpl |-> tpl, fin |-> fin, tabw_first |-> tf, fm |-> <<70>>, m0 |-> IF M0 = "id" THEN <<48 + b>> ELSE IF M0 = "idw" THEN <<48 + b>> \o Run(W, 97) ELSE <<>>, p0 |-> <<>>, pos0 |-> 0,
-     tabw |-> tw, target |-> TargetName, hz |-> Hz, idx |-> 0, b2 |-> 0, dt |-> 0]
+NewOp0(name, b, tpl, fin, tw, tf, mf) ==
+    [op |-> name, b |-> b, len |-> 3, tpl |-> tpl, fin |-> fin, tabw_first |-> tf, fm |-> <<70>>, m0 |-> IF M0 = "id" THEN <<48 + b>> ELSE IF M0 = "idw" THEN <<48 + b>> \o Run(W, 97) ELSE IF M0 = "tab" THEN <<48 + b, TAB, 97>> ELSE <<>>,
+     p0 |-> IF M0 = "tab" THEN <<TAB, 112>> ELSE <<>>, pos0 |-> 0,
+     tabw |-> tw, target |-> TargetName, hz |-> Hz, idx |-> 0, b2 |-> 0, dt |-> 0, mfirst |-> mf]
 
-NewOp(name, b, tpl, fin) == NewOp0(name, b, tpl, fin, 8, FALSE)
+NewOp(name, b, tpl, fin) == NewOp0(name, b, tpl, fin, 8, FALSE, FALSE)
 (* with_tab_width before or after with_style: every order must expand consistently (C16) *)
-NewOps(name, b, tpl, fin) == UNION { { NewOp0(name, b, tpl, fin, tw, tf) : tf \in (IF tw = 8 THEN {FALSE} ELSE BOOLEAN) } : tw \in TabWs }
+(* ... and with_message / with_prefix before or after it (mfirst: the texts are given first) *)
+NewOps(name, b, tpl, fin) == UNION { { NewOp0(name, b, tpl, fin, tw, tf, mf) : tf \in (IF tw = 8 THEN {FALSE} ELSE BOOLEAN), mf \in (IF tw = 8 \/ M0 # "tab" THEN {FALSE} ELSE BOOLEAN) } : tw \in TabWs }
 
 BarOp(name, b, dt) == [op |-> name, b |-> b, dt |-> dt]
 
